@@ -50,6 +50,8 @@ class Fn(object):
         self.ctor = ctor                 # name of a constructor call that creates the private object -> 'New'
 
 
+NEW_MUTATORS = {'update', 'setdefault', 'pop', 'popitem', 'clear', '__setitem__', '__delitem__'}
+
 def paren(t):
     return t if re.match(r'^[A-Za-z]+$', t) else '(%s)' % t
 
@@ -60,9 +62,20 @@ def arg(toks):
     return paren(seq(toks))
 
 
+def lookup(table, u):
+    """exact key first, then keys written as 're:<pattern>' (local variable names are not part of the shape)"""
+    if u in table:
+        return table[u]
+    for k, v in table.items():
+        if k.startswith('re:') and re.match(k[3:] + '$', u):
+            return v
+    return None
+
+
 class Walker(object):
     def __init__(self, cfg, where):
         self.c, self.where = cfg, where
+        self.newvars = set()      # local names bound to the object the constructor call created
 
     def err(self, node, msg):
         raise TranslateError('%s: line %s: %s: %s' % (self.where, getattr(node, 'lineno', '?'), msg, U(node)[:120]))
@@ -77,24 +90,36 @@ class Walker(object):
             if u in c.ignored:
                 return []
             if isinstance(n, ast.Call):
-                tok = c.calls.get(u)
+                tok = lookup(c.calls, u)
                 if tok is None:
                     for rx, t in c.call_res:
                         if re.match(rx, u):
                             tok = t
                             break
+                if tok is None:       # either spelling of a lock-protected region
+                    for lk, name in c.locks.items():
+                        if u == lk + '.acquire()':
+                            tok = 'Acq ' + name
+                        elif u == lk + '.release()':
+                            tok = 'Rel ' + name
                 if tok is None and c.ctor and isinstance(n.func, ast.Name) and n.func.id == c.ctor:
                     tok = 'New'
+                # any in-place change of the object the constructor call created (whatever the arguments are
+                # called, however many such statements there are) is an update of the - possibly already
+                # published - dictionary
+                if tok is None and isinstance(n.func, ast.Attribute) and isinstance(n.func.value, ast.Name) \
+                        and n.func.value.id in self.newvars and n.func.attr in NEW_MUTATORS:
+                    tok = 'Upd'
                 if tok is not None:
                     inner = []
                     for a in list(n.args) + [k.value for k in n.keywords]:
                         inner += self.scan(a)
                     return inner + [tok]
-            if isinstance(n, ast.Compare) and u in c.compares:
-                return [c.compares[u]]
+            if isinstance(n, ast.Compare) and lookup(c.compares, u) is not None:
+                return [lookup(c.compares, u)]
             if isinstance(n, (ast.Attribute, ast.Subscript, ast.Name)) and isinstance(getattr(n, 'ctx', None), ast.Load):
-                if u in c.loads:
-                    return [c.loads[u]]
+                if lookup(c.loads, u) is not None:
+                    return [lookup(c.loads, u)]
             if isinstance(n, ast.Attribute) and n.attr in c.guarded:
                 self.err(n, 'unrecognised use of guarded name %r' % n.attr)
             if isinstance(n, ast.Name) and n.id in c.guarded:
@@ -123,8 +148,8 @@ class Walker(object):
         if isinstance(t, ast.Starred):
             return self.store(t.value)
         u = U(t)
-        if u in c.stores:
-            return [c.stores[u]]
+        if lookup(c.stores, u) is not None:
+            return [lookup(c.stores, u)]
         if isinstance(t, ast.Attribute):
             if t.attr in c.guarded:
                 self.err(t, 'unrecognised store to guarded name %r' % t.attr)
@@ -175,7 +200,13 @@ class Walker(object):
         c = self.c
         if isinstance(s, ast.Assign):
             out = self.scan(s.value)
+            if c.ctor and isinstance(s.value, ast.Call) and isinstance(s.value.func, ast.Name) \
+                    and s.value.func.id == c.ctor:
+                self.newvars |= {t.id for t in s.targets if isinstance(t, ast.Name)}
             for t in s.targets:
+                if isinstance(t, ast.Subscript) and isinstance(t.value, ast.Name) and t.value.id in self.newvars:
+                    out += self.scan(t.slice) + ['Upd']       # attr[k] = v
+                    continue
                 out += self.store(t)
             return out
         if isinstance(s, ast.AnnAssign):
@@ -197,11 +228,14 @@ class Walker(object):
             o = self.block(s.orelse)
             if not b and not o:
                 return t
-            if o:
-                self.err(s, 'else branch touching shared state')
             k = self.kind(s.test)
             if k is None:
                 self.err(s.test, 'test of unknown kind around shared accesses')
+            if o:
+                # `if c: ...; return x  else: rest` is `if c: ...; return x` followed by `rest`
+                if c.track_exits and b and b[-1] in ('Ret', 'Raise'):
+                    return t + ['If %s %s' % (k, arg(b))] + o
+                self.err(s, 'else branch touching shared state')
             return t + ['If %s %s' % (k, arg(b))]
         if isinstance(s, ast.Try):
             b = self.block(s.body)
@@ -249,6 +283,7 @@ CFG = {
                       'self.doc.wsdl11.build_interface_document(url)': 'Call Build',
                       'self._mtx_build_interface_document.acquire()': 'Acq WLock',
                       'self._mtx_build_interface_document.release()': 'Rel WLock'},
+               locks={'self._mtx_build_interface_document': 'WLock'},
                guarded={'_wsdl', '_mtx_build_interface_document', 'get_interface_document', 'build_interface_document'},
                track_exits=False),
     'get': Fn('get_interface_document', loads={'self.__wsdl': 'Rd BWsdl'}, stores={'self.__wsdl': 'Wr BWsdl'},
@@ -256,8 +291,7 @@ CFG = {
     'build': Fn('build_interface_document', loads={'self.__wsdl': 'Rd BWsdl'}, stores={'self.__wsdl': 'Wr BWsdl'},
                 guarded={'__wsdl'}, track_exits=False),
     'attrs': Fn('get_cls_attrs',
-                calls={'self._attrcache.get(cls, None)': 'Rd AttrCache',
-                       'attr.update(cls_attrs)': 'Upd', 'attr.update(inst_attrs)': 'Upd'},
+                calls={'self._attrcache.get(cls, None)': 'Rd AttrCache'},
                 loads={'self._attrcache[cls]': 'Rd AttrCache'}, stores={'self._attrcache[cls]': 'Wr AttrCache'},
                 ignored={'len(self._attrcache)'}, guarded={'_attrcache', 'update', 'setdefault', 'pop', 'clear'},
                 ctor='DefaultAttrDict'),
@@ -267,19 +301,19 @@ CFG = {
                    locks={'self._validation_lock': 'VLock'},
                    guarded={'validation_schema', 'error_log', 'last_error', '_validation_lock', 'validate'}),
     'memo': Fn('__call__',
-               compares={'key in self.memo': 'Rd MemoIn', 'key not in self.memo': 'Rd MemoIn'},
-               stores={'self.memo[key]': 'Wr MemoIn'},
-               calls={'self.memo.get(key)': 'Rd MemoGet', 'self.func(*args, **kwargs)': 'Call Func'},
+               compares={r're:\w+ in self\.memo': 'Rd MemoIn', r're:\w+ not in self\.memo': 'Rd MemoIn'},
+               stores={r're:self\.memo\[\w+\]': 'Wr MemoIn'},
+               calls={r're:self\.memo\.get\(\w+\)': 'Rd MemoGet', 'self.func(*args, **kwargs)': 'Call Func'},
                locks={'self.lock': 'MLock'}, guarded={'memo', 'lock', 'func'}),
     'sort': Fn('sort_fields',
                calls={'self._sortcache.get(cls, None)': 'Rd SortCache',
                       'cls.get_flat_type_info(cls)': 'Call Func'},
-               call_res=[(r'^items\.sort\(', 'SortIt')],
+               call_res=[(r'^\w+\.(sort|reverse)\(', 'SortIt')],
                loads={'self._sortcache[cls]': 'Rd SortCache'}, stores={'self._sortcache[cls]': 'Wr SortCache'},
                ignored={'len(self._sortcache)'}, guarded={'_sortcache', 'sort', 'reverse'}),
     'cdict': Fn('__getitem__',
                 calls={'dict.__getitem__(self, cls)': 'Rd CDict'},
-                loads={'self[b]': 'Rd CDict'}, stores={'self[cls]': 'Wr CDict'},
+                loads={r're:self\[\w+\]': 'Rd CDict'}, stores={r're:self\[\w+\]': 'Wr CDict'},
                 guarded={'__setitem__', 'setdefault', 'update', 'pop'}),
 }
 
@@ -431,13 +465,16 @@ def generate(repo):
     sortfn = find_func(find_class(base, 'ProtocolMixin', '_base.py'), 'sort_fields', '_base.py')
     stores = [n for n in ast.walk(sortfn) if isinstance(n, ast.Assign) and len(n.targets) == 1
               and U(n.targets[0]) == 'self._sortcache[cls]']
-    tests = [n.test for n in ast.walk(sortfn) if isinstance(n, ast.If) and isinstance(n.test, ast.BoolOp)
-             and 'entry[0] is' in U(n.test)]
-    fti_assigns = [U(n.value) for n in ast.walk(sortfn) if isinstance(n, ast.Assign) and len(n.targets) == 1
-                   and U(n.targets[0]) == 'fti']
-    sort_tagged = (len(stores) == 1 and U(stores[0].value) in ('(fti, items)', 'fti, items')
-                   and len(tests) == 1 and U(tests[0]) == 'entry is not None and entry[0] is fti'
-                   and sorted(fti_assigns) == ['None', 'cls.get_flat_type_info(cls)'])
+    sort_tagged = False
+    if len(stores) == 1 and isinstance(stores[0].value, ast.Tuple) and len(stores[0].value.elts) == 2 \
+            and all(isinstance(e, ast.Name) for e in stores[0].value.elts):
+        tag = stores[0].value.elts[0].id            # the local holding the flat type info
+        tests = [n.test for n in ast.walk(sortfn) if isinstance(n, ast.If) and isinstance(n.test, ast.BoolOp)
+                 and Walker(CFG['sort'], 'sort_fields').kind(n.test) == 'CFresh']
+        tag_assigns = sorted(U(n.value) for n in ast.walk(sortfn) if isinstance(n, ast.Assign)
+                             and len(n.targets) == 1 and U(n.targets[0]) == tag)
+        sort_tagged = (len(tests) == 1 and U(tests[0].values[1].comparators[0]) == tag
+                       and tag_assigns in (['None', 'cls.get_flat_type_info(cls)'], ['cls.get_flat_type_info(cls)']))
     side = [
         ('wlock_is_lock', 'WsgiApplication.__init__: self._mtx_build_interface_document = threading.Lock()',
          init_assigns(find_class(wsgi, 'WsgiApplication', 'wsgi.py'), '_mtx_build_interface_document', 'threading.Lock()', 'wsgi.py')),
